@@ -38,15 +38,23 @@ def homog_pseudoinverse(ctx, cls, d):
     src, tgt = getattr(t, '_source', None), getattr(t, '_target', None)
     ctx.check_true('declares-true-inverse', t.has_true_inverse is True)
     p = t.pseudoinverse()
+    if cls == 'Homogeneous':
+        # domain conditions of the projective maps involved
+        tx = B.assume_in_domain(ctx, t, x)
+        B.assume_in_domain(ctx, p, tx)
+        px = B.assume_in_domain(ctx, p, x)
+        B.assume_in_domain(ctx, t, px)
     ctx.check_eq('left-inverse', p.apply(t.apply(x)), x)
     ctx.check_eq('right-inverse', t.apply(p.apply(x)), x)
     ctx.check_true('family', isinstance(p, T.Homogeneous))
     base = cls.replace('Alignment', '')
     ctx.check_true('class-kept', type(p) is type(t))
     check_honest(ctx, 'inverse', p, d)
-    I = np.eye(d + 1)
-    ctx.check_eq('matrix-product-left', p.h_matrix.dot(h0), B.h_from(np.eye(d), np.zeros(d)) if True else I)
-    ctx.check_eq('matrix-product-right', h0.dot(p.h_matrix), B.h_from(np.eye(d), np.zeros(d)))
+    if cls != 'Homogeneous':
+        # affine family: the matrix itself is determined (last row 0..0 1);
+        # for projective maps only the map is (a matrix up to scale)
+        ctx.check_eq('matrix-product-left', p.h_matrix.dot(h0), B.h_from(np.eye(d), np.zeros(d)))
+        ctx.check_eq('matrix-product-right', h0.dot(p.h_matrix), B.h_from(np.eye(d), np.zeros(d)))
     ctx.check_eq('frame/receiver-unchanged', t.h_matrix, h0)
     ctx.check_true('frame/receiver-matrix-object-kept', t.h_matrix is hid)
     ctx.check_true('frame/inverse-not-aliasing', not np.shares_memory(p.h_matrix, t.h_matrix))
